@@ -883,8 +883,9 @@ def run_ipv6(M, case):
             for l, r in ((' ', ' '), ('(', ')'), ('', ''), (',', ';'), ('\n', ' ')):
                 got = p.get_matches(l + s + r)
                 M.expect(got == [s], 'meta:rejects-valid', 'IPv6().get_matches(%r) = %r' % (l + s + r, got), 'ipv6-embedded')
-            for text in (s + ':', ':' + s, s + '5', '5' + s, s + ':7', '9:' + s, s + ':' + s):
-                glue_law(M, p, text, '0123456789:', 'IPv6()')
+            for text in (s + ':', ':' + s, s + '5', '5' + s, s + ':7', '9:' + s, s + ':' + s, 'abcde' + s, s + 'abcde', 'F' + s, s + 'e', ':a' + s):
+                # the digits of an IPv6 address are hexadecimal: glue to a hex letter counts like glue to a decimal digit
+                glue_law(M, p, text, '0123456789abcdefABCDEF:', 'IPv6()')
 
 
 def rand_ipv6(rnd, n):
